@@ -63,7 +63,7 @@ type Cfg struct {
 	P       int  `json:"p"`   // primary replicas
 	D       int  `json:"d"`   // dr replicas
 	StoreTO int  `json:"sto"` // wait-store-timeout: 0 = 0s, 1 = 1h
-	AsyncTO int  `json:"ato"` // wait-async-timeout: 0 = 0s, 1 = 1ns, 2 = 1h
+	AsyncTO int  `json:"ato"` // wait-async-timeout: 0 = 0s, 1 = 1ns, 2 = 1h, 3 = 100ms (real time can be below and above)
 }
 
 // StoreSpec gives, per label key, which value the store carries:
@@ -90,7 +90,8 @@ type StoreSpec struct {
 //	config  A=0 toggle mode | 1 toggle label key | 2 replicas B,C | 3 store timeout B | 4 async timeout B | 5 same config again
 //	failsave            the next storage write fails
 //	failrepl A=n        the next n file replications fail
-//	member  A=member id (UpdateMemberWaitAsyncTime)
+//	member  A=member id (UpdateMemberWaitAsyncTime: the pd member reports that it is in sync with the leader now)
+//	sleep   A=milliseconds of real time (member reports and the manager grow older)
 //	restart A=0|1       a new manager over the same storage and cluster (leader change); A=1: every storage read
 //	                    fails during the first construction, which is then retried without fault (as the leader
 //	                    campaign would)
@@ -157,7 +158,7 @@ func genCfg(t *rapid.T) Cfg {
 	x := pd[w(t, "replicas", 40, 15, 17, 12, 6, 5, 5)]
 	c.P, c.D = x[0], x[1]
 	c.StoreTO = w(t, "storeTO", 5, 95)
-	c.AsyncTO = w(t, "asyncTO", 86, 6, 8)
+	c.AsyncTO = w(t, "asyncTO", 84, 6, 8, 2)
 	return c
 }
 
@@ -190,7 +191,7 @@ func genConfigOp(t *rapid.T) Op {
 	case 3:
 		op.B = rapid.IntRange(0, 1).Draw(t, "sto")
 	case 4:
-		op.B = rapid.IntRange(0, 2).Draw(t, "ato")
+		op.B = rapid.IntRange(0, 3).Draw(t, "ato")
 	}
 	op.P = w(t, "probes", 40, 35, 15, 10)
 	return op
@@ -352,7 +353,25 @@ func genCase(t *rapid.T) Case {
 	}
 	rounds := w(t, "rounds", 45, 35, 20) + 1
 	for r := 0; r < rounds; r++ {
-		if w(t, "outage", 20, 80) == 1 {
+		if w(t, "memberScenario", 93, 7) == 1 {
+			// a short wait-async-timeout; some pd members reported long ago (e.g. the pd in the lost site), the
+			// manager is older than the timeout, others report just before the dc is lost: async must wait.
+			// More stale than fresh members and several ticks: the manager walks its member map in random order.
+			add(Op{K: "config", A: 4, B: 3})
+			nStale := 1 + w(t, "nStale", 20, 45, 35)
+			for i := 0; i < nStale; i++ {
+				add(Op{K: "member", A: 1 + i})
+			}
+			add(Op{K: "sleep", A: rapid.IntRange(110, 130).Draw(t, "ms")})
+			nFresh := w(t, "nFresh", 10, 70, 20)
+			for i := 0; i < nFresh; i++ {
+				add(Op{K: "member", A: 10 + i})
+			}
+			add(Op{K: "dc", A: losing, B: 2, C: 0}, Op{K: "tick", A: 2 + w(t, "moreTicks", 50, 50), P: w(t, "probes", 70, 30)})
+			if w(t, "waitOut", 50, 50) == 1 {
+				add(Op{K: "sleep", A: rapid.IntRange(110, 130).Draw(t, "ms")}, genTick(t))
+			}
+		} else if w(t, "outage", 20, 80) == 1 {
 			add(Op{K: "dc", A: losing, B: 2, C: 0}, genTick(t))
 			if w(t, "leaderChange", 85, 15) == 1 {
 				// the pd leader changes while the cluster is (usually) async
@@ -497,6 +516,11 @@ type model struct {
 	seen        map[uint64]bool // every state id ever offered, saved or served
 	servedHist  []uint64        // ids that were served to stores at some point, oldest first
 
+	// real-time windows (harness clock read before / after the call) of the manager's construction and of
+	// every member's last sync report; cleared by a restart
+	bornBefore time.Time
+	members    map[int][2]time.Time
+
 	covID uint64 // sync_recover state id the coverage belongs to
 	cov   iset   // union of ranges seen at ticks with integrity under covID
 }
@@ -522,10 +546,11 @@ func (m *model) failed(c Cfg) (fp, fd int) {
 }
 
 // mayGoAsync: some dc lost >= its replica count, a majority of replicas can be up, timeout passed.
-func (m *model) mayGoAsync(c Cfg) (bool, string) {
+// end is a harness clock reading taken after the manager made its decision.
+func (m *model) mayGoAsync(c Cfg, end time.Time) (bool, string) {
 	fp, fd := m.failed(c)
-	why := fmt.Sprintf("failed stores primary %d/%d replicas, dr %d/%d replicas, wait-async-timeout %s",
-		fp, c.P, fd, c.D, []string{"0", "1ns", "1h"}[c.AsyncTO])
+	why := fmt.Sprintf("failed stores primary %d/%d replicas, dr %d/%d replicas, wait-async-timeout %v",
+		fp, c.P, fd, c.D, asyncTimeouts[c.AsyncTO])
 	if !(fp >= c.P || fd >= c.D) {
 		return false, why + ": no dc has lost as many stores as it has replicas"
 	}
@@ -539,10 +564,51 @@ func (m *model) mayGoAsync(c Cfg) (bool, string) {
 	if up*2 <= c.P+c.D {
 		return false, why + fmt.Sprintf(": at most %d of %d replicas can be up, not a majority", up, c.P+c.D)
 	}
-	if c.AsyncTO == 2 {
-		return false, why + ": the manager exists for less than the wait-async-timeout of 1h"
+	// the timeout has passed only if the manager and EVERY reporting member are older than it. Only what is
+	// certain on the harness clock is judged: the report was started at most `age` before the decision ended.
+	if T := asyncTimeouts[c.AsyncTO]; T > 0 {
+		if age := end.Sub(m.bornBefore); age <= T {
+			return false, why + fmt.Sprintf(": the manager exists for at most %v, less than the wait-async-timeout", age)
+		}
+		for _, id := range m.memberIDs() {
+			if age := end.Sub(m.members[id][0]); age <= T {
+				return false, why + fmt.Sprintf(": pd member %d reported being in sync at most %v ago, inside the wait-async-timeout (reports: %s)", id, age, m.memberAges(end))
+			}
+		}
 	}
 	return true, why
+}
+
+func (m *model) memberIDs() []int {
+	var ids []int
+	for id := range m.members {
+		ids = append(ids, id)
+	}
+	sort.Ints(ids)
+	return ids
+}
+
+func (m *model) memberAges(end time.Time) string {
+	s := ""
+	for _, id := range m.memberIDs() {
+		s += fmt.Sprintf(" member %d: %v..%v ago;", id, end.Sub(m.members[id][1]).Round(time.Millisecond), end.Sub(m.members[id][0]).Round(time.Millisecond))
+	}
+	return s
+}
+
+// freshness counts the members that are certainly inside / certainly outside the timeout for a decision made
+// between start and end.
+func (m *model) freshness(c Cfg, start, end time.Time) (fresh, stale int) {
+	T := asyncTimeouts[c.AsyncTO]
+	for _, w := range m.members {
+		switch {
+		case end.Sub(w[0]) <= T:
+			fresh++
+		case start.Sub(w[1]) > T:
+			stale++
+		}
+	}
+	return
 }
 
 func (m *model) maySyncRecover(c Cfg) (bool, string) {
@@ -717,6 +783,8 @@ type fixture struct {
 	m      *replication.ModeManager
 }
 
+var asyncTimeouts = []time.Duration{0, time.Nanosecond, time.Hour, 100 * time.Millisecond}
+
 func dur(d time.Duration) typeutil.Duration { return typeutil.Duration{Duration: d} }
 
 func toConfig(c Cfg) config.ReplicationModeConfig {
@@ -732,7 +800,7 @@ func toConfig(c Cfg) config.ReplicationModeConfig {
 		DRReplicas:       c.D,
 		WaitStoreTimeout: dur([]time.Duration{0, time.Hour}[c.StoreTO]),
 		WaitSyncTimeout:  dur(time.Minute),
-		WaitAsyncTimeout: dur([]time.Duration{0, time.Nanosecond, time.Hour}[c.AsyncTO]),
+		WaitAsyncTimeout: dur(asyncTimeouts[c.AsyncTO]),
 	}}
 }
 
@@ -870,6 +938,7 @@ type opCtx struct {
 	labelChanged bool   // config: dr -> dr with another label key
 	toDR         bool   // config: majority -> dr-auto-sync
 	desc         string
+	end          time.Time // harness clock after the op returned
 }
 
 type attempt struct {
@@ -982,7 +1051,7 @@ func (r *runner) judge(ctx opCtx, atts []attempt) error {
 					r.class("async-by-label-key-change")
 					break
 				}
-				if ok, why := m.mayGoAsync(ctx.cfg); !ok {
+				if ok, why := m.mayGoAsync(ctx.cfg, ctx.end); !ok {
 					return fmt.Errorf("%s is not allowed: %s", what, why)
 				}
 			case "sync_recover":
@@ -1206,6 +1275,7 @@ func (r *runner) newManager(ctx opCtx, failLoads bool) error {
 	r.f.kv.FailLoads = failLoads
 	r.f.pr.m = nil // nobody can ask a manager that is still being constructed
 	r.f.pr.begin(0)
+	r.m.bornBefore, r.m.members = time.Now(), map[int][2]time.Time{}
 	mgr, err := replication.NewReplicationModeManager(toConfig(r.m.cfg), r.f.stg, r.f.cl, r.f.rep)
 	r.f.kv.FailLoads = false
 	atts, cerr := r.collect()
@@ -1465,7 +1535,15 @@ func runCase(c Case) (vkit.Info, error) {
 		case "failrepl":
 			f.rep.failN = op.A
 		case "member":
+			tb := time.Now()
 			f.m.UpdateMemberWaitAsyncTime(uint64(op.A))
+			m.members[op.A] = [2]time.Time{tb, time.Now()}
+		case "sleep":
+			ms := op.A
+			if ms < 0 || ms > 250 {
+				ms = 250
+			}
+			time.Sleep(time.Duration(ms) * time.Millisecond)
 		case "restart":
 			r.class("restart")
 			if err := r.newManager(opCtx{kind: "restart", cfg: m.cfg, desc: desc}, op.A == 1); err != nil {
@@ -1485,7 +1563,7 @@ func runCase(c Case) (vkit.Info, error) {
 			case 3:
 				nc.StoreTO = op.B % 2
 			case 4:
-				nc.AsyncTO = op.B % 3
+				nc.AsyncTO = op.B % 4
 			}
 			cx := opCtx{kind: "config", cfg: nc, desc: desc,
 				labelChanged: m.cfg.DR && nc.DR && m.cfg.Key != nc.Key,
@@ -1495,6 +1573,7 @@ func runCase(c Case) (vkit.Info, error) {
 			before := r.installed()
 			f.pr.begin(op.P)
 			uerr := f.m.UpdateConfig(toConfig(nc))
+			cx.end = time.Now()
 			batches := f.pr.join()
 			if f.pr.timedOut {
 				info.Inconclusive = true
@@ -1553,7 +1632,26 @@ func runCase(c Case) (vkit.Info, error) {
 				}
 				before := r.installed()
 				f.pr.begin(op.P)
+				tickStart := time.Now()
 				f.m.VerifTickDR()
+				cx.end = time.Now()
+				if m.cfg.DR && asyncTimeouts[m.cfg.AsyncTO] > 0 && m.cur.valid && m.cur.state != "async" {
+					if ok, _ := m.mayGoAsync(Cfg{Key: m.cfg.Key, P: m.cfg.P, D: m.cfg.D, StoreTO: m.cfg.StoreTO}, cx.end); ok {
+						// stores and majority would allow async: only the timeout decides
+						fresh, stale := m.freshness(m.cfg, tickStart, cx.end)
+						old := cx.end.Sub(m.bornBefore) > asyncTimeouts[m.cfg.AsyncTO]
+						switch {
+						case old && fresh > 0 && stale > 0:
+							r.class("members-mixed-freshness")
+						case old && fresh > 0:
+							r.class("members-all-fresh")
+						case old && stale > 0 && len(m.members) == stale:
+							r.class("members-all-timed-out")
+						case old && len(m.members) == 0:
+							r.class("timeout-passed-no-members")
+						}
+					}
+				}
 				batches := f.pr.join()
 				if f.pr.timedOut {
 					info.Inconclusive = true
